@@ -82,7 +82,8 @@ def machineWF (d : DFA Trans) (entries : List (String × Nat)) (nCtx : Nat) : WF
     ctxIdxOK := (allAccs d).all fun a => match a.ctx with | some i => i < nCtx | none => true
     -- state 0 is where failures return to and the only state whose end-of-input default is
     -- `return None`: it must be an initial state; when rule sets are named it must be `Init`'s
-    state0OK := (d.st 0).initial && (entries.isEmpty || entries.any fun e => e.1 == "Init" && e.2 == 0) }
+    state0OK := decide (0 < d.length) && (d.st 0).initial && (d.st 0).accepting.isEmpty &&
+      (entries.isEmpty || entries.any fun e => e.1 == "Init" && e.2 == 0) }
 
 /-- Right-context DFAs (not simplified): targets in range, tables well-formed, end-of-input
 targets accepting and without end-of-input successors of their own. -/
